@@ -60,7 +60,7 @@ out["confirmed"] = ok
 print(json.dumps(out, indent=1))
 if ok:
     b = os.path.basename(src_wt)
-    rnd = "agent4" if "seed4" in b else "agent3" if "seed3" in b else ("agent2" if "seed2" in b else "agent")
+    rnd = "agent5" if "seed5" in b else "agent4" if "seed4" in b else "agent3" if "seed3" in b else ("agent2" if "seed2" in b else "agent")
     dst = os.path.join("/verif/seeded", "%s-%s-%s" % (prop, rnd, n))
     os.makedirs(dst, exist_ok=True)
     for f in os.listdir(sd):
